@@ -589,6 +589,9 @@ def run(tier):
         r.functions += [dict(file='sutils.py', fn=f, trusted=t, nonterminating=[], cutloops=0, unrolled=0, terminating=0)
                         for f, t in (('ppos', ['numpy.arange']), ('standard_normal', ['pandas.Series.rank', 'scipy.stats.norm.ppf']), ('lhs', ['numpy.linspace', 'numpy.random.permutation', 'numpy.random.uniform']))]
         r.extra['paths_explored'] = npaths
+    except (engp.Unsupported, engp.PathLimit) as e:
+        # the code under analysis uses a construct the symbolic executor does not support (e.g. after a change of the code): undecided, not a crash
+        r.undecided.append('Engine P cannot execute the current code symbolically: %s' % (str(e)[:300],))
     except Exception:
         r.broken.append('C20 Engine P driver crashed: ' + traceback.format_exc()[-2500:])
     monitors(r)
